@@ -68,8 +68,10 @@ def run(tier):
     wd = vlib.workdir("C17")
     quick = tier == "quick"
     rng = random.Random(vlib.seed())
-    bins = rk.build_readers([("def", rc.OPTS_DEFAULT, [], False)])
+    # (debug: ARDUINOJSON_DEBUG=1 turns the library's internal assertions on; they must hold for every input)
+    bins = rk.build_readers([("def", rc.OPTS_DEFAULT, [], False), ("debug", rc.OPTS_DEFAULT, ["ARDUINOJSON_DEBUG=1"], False)])
     esc_bin = vlib.build("escape_record", "escape_record.cpp")
+    esc_dbg = vlib.build("escape_record-debug", "escape_record.cpp", defines=["ARDUINOJSON_DEBUG=1"])
     lines = unicode_lines(quick, rng) + rg.gen_escape_offsets(rc.OPTS_DEFAULT)
     if not quick:
         # 1M pairs: replay in slices to bound the size of the case files
@@ -77,12 +79,13 @@ def run(tier):
     else:
         step = len(lines)
     for k in range(0, len(lines), step):
-        rk.run_feed(chk, wd, f"unicode{k // step}", lines[k:k + step], None, [("def", bins["def"])])
+        rk.run_feed(chk, wd, f"unicode{k // step}", lines[k:k + step], None, [("def", bins["def"]), ("debug", bins["debug"])])
     # escaping direction
     jobs = []
     for i in range(16):
         out = os.path.join(wd, f"esc{i}.ndjson")
-        jobs.append(([esc_bin, out, str(i * 16), str(i * 16 + 15), "edge" if quick else "all"], out))
+        # (every other slice on the build with the library's assertions enabled)
+        jobs.append(([esc_dbg if i % 2 else esc_bin, out, str(i * 16), str(i * 16 + 15), "edge" if quick else "all"], out))
     res = vlib.run_parallel([j[0] for j in jobs])
     rows = 0
     good = []
